@@ -99,6 +99,28 @@ def do(op: dict) -> dict:
                         vals.append(err_enum(ex))
                 out.append({"listing": list(d["properties"]), "row": row, "names": names, "values": vals})
         return {"reads": out}
+    if kind == "handread":
+        # a hand-written schema for non-delimited data (an array sized by minItems alone, a leaf with an arbitrary conversion name)
+        # read with the text reader or the EBCDIC reader
+        doc = op["doc"]
+        schema = SI.SchemaMaker.from_json(doc)
+        WATCH.append((doc, copy.deepcopy(doc), schema, copy.deepcopy(schema.json())))
+        if op["reader"] == "text":
+            unp, inst = SI.TextUnpacker(), SI.TextInstance(op["text"])
+        else:
+            unp, inst = SI.EBCDIC(), SI.BytesInstance(op["text"].encode("cp037"))
+        out = {}
+        try:
+            nav = unp.nav(schema, inst)
+            for name in op["fields"]:
+                try:
+                    out[name] = repr(nav.name(name).value())
+                except BaseException as ex:  # noqa: BLE001
+                    out[name] = err_enum(ex)
+            out["end"] = nav.location.end
+        except BaseException as ex:  # noqa: BLE001
+            out["nav"] = err_enum(ex)
+        return out
     if kind == "hdrdet":
         # a header/detail file: the header row is read with the HDR schema and KEPT without being looked at, the sheet is then
         # bound to the DET schema for the remaining records, and only afterwards is the kept header row looked at
